@@ -95,18 +95,18 @@ def ob_a(dur: str, d1: str, shape: int, p: int, a: int, clef: int, b: list[bool]
     for s in (dur, d1):
         assume('@' not in s and '·' not in s and ' ' not in s)
     d2 = 'L'
-    assume(0 <= shape < 5 and 0 <= p < len(PITCHES) and 0 <= a < len(ALTS) and 0 <= clef < len(CLEFS))
-    sh = choose(shape, 5)
+    assume(0 <= shape < 6 and 0 <= p < len(PITCHES) and 0 <= a < len(ALTS) and 0 <= clef < len(CLEFS))
+    sh = choose(shape, 6)
     pitch, alt = PITCHES[choose(p, len(PITCHES))], ALTS[choose(a, len(ALTS))]
     cl = tk.ClefToken(CLEFS[choose(clef, len(CLEFS))])
     S = CatSet(b)
-    n1 = _mk_note(dur, 1 if sh == 1 else 0, pitch, alt, [d1] if sh != 3 else [])
+    n1 = _mk_note(dur, {1: 1, 5: 3}.get(sh, 0), pitch, alt, [d1] if sh != 3 else [])      # shape 5: three augmentation dots
     if sh == 4:
         n2 = _mk_note(dur, 0, pitch, alt, [d1])         # the same note twice (a unison of two voices): two notes in every encoding
         token = tk.ChordToken('enc', TC.CHORD, [n1, n2])
         notes = [n1, n2]
-    elif sh >= 2:
-        n2 = _mk_note(dur, 0, 'r' if sh == 3 else 'a', '', [d2] if sh == 2 else [d1])
+    elif 2 <= sh <= 3:
+        n2 = _mk_note(dur, 2 if sh == 3 else 0, 'r' if sh == 3 else 'a', '', [d2] if sh == 2 else [d1])      # the rest of shape 3 is double-dotted
         token = tk.ChordToken('enc', TC.CHORD, [n1, n2])
         notes = [n1, n2]
     else:
@@ -362,10 +362,10 @@ OBLIGATIONS = [
        witnesses=[{'d': 0, 'a': 2, 'b': 2, 'ids': 0}], min_confirmed=60, enumerated='document (2), from_measure 0..3 (0 = omitted), to_measure 0..3, spine-type selection (3)',
        bounds={'quick': '2 x 4 x 4 x 3 option sets x 6 encodings', 'thorough': 'same'}),
     Ob(id='C04.a', fn=ob_a, title='tokens with symbolic sub-token texts under a symbolic category set: plain == extended - separators, basic == full - signifiers per note',
-       shard_of=lambda dur, d1, shape, p, a, clef, b: shape + 5 * p + 10 * a, shards={'quick': 20, 'thorough': 20}, budget_s={'quick': 170, 'thorough': 2400},
+       shard_of=lambda dur, d1, shape, p, a, clef, b: shape + 6 * p + 12 * a, shards={'quick': 24, 'thorough': 24}, budget_s={'quick': 170, 'thorough': 2400},
        witnesses=[{'dur': '4', 'd1': 'J', 'shape': 2, 'p': 0, 'a': 1, 'clef': 0, 'b': [True] * N}], min_confirmed=100,
-       symbolic='duration text, signifier text (arbitrary 1-character strings), category set (37 booleans)', enumerated='token shape (note, dotted note, chord, chord with rest, chord holding one note twice), pitch, accidental, clef',
-       bounds={'quick': 'duration 1 char, signifier 1 char; 5 shapes x 2 pitches x 2 accidentals, G2 clef (clef dependence is C10)', 'thorough': 'same'}),
+       symbolic='duration text, signifier text (arbitrary 1-character strings), category set (37 booleans)', enumerated='token shape (note, dotted note, chord, chord with double-dotted rest, chord holding one note twice, triple-dotted note), pitch, accidental, clef',
+       bounds={'quick': 'duration 1 char, signifier 1 char; 6 shapes x 2 pitches x 2 accidentals, G2 clef (clef dependence is C10)', 'thorough': 'same'}),
     Ob(id='C04.a2', fn=ob_a2, title='non-note tokens are identical in the six encodings (symbolic text, symbolic category set)',
        budget_s={'quick': 120, 'thorough': 900}, witnesses=[{'s': 'la', 'kind': 0, 'b': [True] * N}], min_confirmed=4,
        symbolic='token text, category set', enumerated='token class (lyric, clef, barline, field comment)',
